@@ -1265,6 +1265,8 @@ class TT():
 
             if self.__is_ttm:
 
+                if len(index) % 2 != 0:
+                    raise InvalidArguments('Slice size is invalid.')
                 cores_new = []
                 k = 0
                 for i in range(len(index)//2):
